@@ -569,6 +569,9 @@ func (pp *partitionProducer) dispatch() {
 		}
 
 		if msg.retries > pp.highWatermark {
+			if err := pp.updateLeaderIfBrokerProducerIsNil(msg); err != nil {
+				continue
+			}
 			// a new, higher, retry level; handle it and then back off
 			pp.newHighWatermark(msg.retries)
 			pp.backoff(msg.retries)
@@ -599,14 +602,8 @@ func (pp *partitionProducer) dispatch() {
 		// if we made it this far then the current msg contains real data, and can be sent to the next goroutine
 		// without breaking any of our ordering guarantees
 
-		if pp.brokerProducer == nil {
-			if err := pp.updateLeader(); err != nil {
-				verifEvt("pp.fail", msg, msg.retries, 0)
-				pp.parent.returnError(msg, err)
-				pp.backoff(msg.retries)
-				continue
-			}
-			Logger.Printf("producer/leader/%s/%d selected broker %d\n", pp.topic, pp.partition, pp.leader.ID())
+		if err := pp.updateLeaderIfBrokerProducerIsNil(msg); err != nil {
+			continue
 		}
 
 		// Now that we know we have a broker to actually try and send this message to, generate the sequence
@@ -622,6 +619,21 @@ func (pp *partitionProducer) dispatch() {
 		verifEvt("pp.fwd", msg, msg.retries, int(pp.brokerProducer.broker.ID()))
 		pp.brokerProducer.input <- msg
 	}
+}
+
+// updateLeaderIfBrokerProducerIsNil selects a broker producer if none is selected; when the leader cannot be
+// found the message is failed (after the usual back-off) and the error is returned.
+func (pp *partitionProducer) updateLeaderIfBrokerProducerIsNil(msg *ProducerMessage) error {
+	if pp.brokerProducer == nil {
+		if err := pp.updateLeader(); err != nil {
+			verifEvt("pp.fail", msg, msg.retries, 0)
+			pp.parent.returnError(msg, err)
+			pp.backoff(msg.retries)
+			return err
+		}
+		Logger.Printf("producer/leader/%s/%d selected broker %d\n", pp.topic, pp.partition, pp.leader.ID())
+	}
+	return nil
 }
 
 func (pp *partitionProducer) newHighWatermark(hwm int) {
